@@ -899,6 +899,12 @@ static Token *include_file(Token *tok, char *path, Token *filename_tok) {
   if (!tok2)
     error_tok(filename_tok, "%s: cannot open file: %s", path, strerror(errno));
 
+  // A file that includes itself without a guard would otherwise be
+  // read until the memory is exhausted.
+  tok2->file->include_depth = filename_tok->file->include_depth + 1;
+  if (tok2->file->include_depth > 200)
+    error_tok(filename_tok, "#include nested too deeply");
+
   guard_name = detect_include_guard(tok2);
   if (guard_name)
     hashmap_put(&include_guards, path, guard_name);
